@@ -139,13 +139,17 @@ def run(tier, seed):
         V.violation({"why": p["why"], "ops": [" ".join(c["argv"]) for c in chain], "fmt": fmt, "flags": flags},
                     {"argv": cases[i]["argv"][1:], "changed_texts": changed, "outx_len": len(o["outx"])})
     import copy
-    base = next(o for o in obs if len(o["ops"]) == 1 and o["ops"][0]["argv"] == ["cat"])
-    cor = copy.deepcopy(base)
-    cor["outx"][3] = cor["outx"][3] + "0"
-    sb, _ = b3.validate("ValueTextObs", [cor, base], consts={"Texts": '{"a"}'}, init="OInit", next_="ONext")
-    st = {"ok": [b[0] for b in sb] == [0]}
+    badset = {idx for idx, _ in bad}
+    base = next((o for k, o in enumerate(obs) if k not in badset and len(o["ops"]) == 1 and len(o["outx"]) > 5), None)
+    if base is None:
+        st = {"ok": None, "why": "no conforming observation to corrupt"}
+    else:
+        cor = copy.deepcopy(base)
+        cor["outx"][3] = cor["outx"][3] + "0"
+        sb, _ = b3.validate("ValueTextObs", [cor, base], consts={"Texts": '{"a"}'}, init="OInit", next_="ONext")
+        st = {"ok": [b[0] for b in sb] == [0]}
     cov["obs_selftest"] = st
-    if not st["ok"]:
+    if st["ok"] is False:
         raise vlib.Inconclusive("observation self-test failed")
     fields = sum(len(o["outx"]) for o in obs)
     cov["samples"] += [{"argv": cases[omap[k]]["argv"][1:], "x_texts_out": obs[k]["outx"][:8]} for k in (0, len(obs) // 2)]
